@@ -208,11 +208,11 @@ def run(P: Program, rep: Report):
 
         variant = 0
 
-        def run1(ctx, mcls=mcls, kwargs=kwargs, name_kind=name_kind):
+        def run1(ctx, mcls=mcls, kwargs=kwargs, name_kind=name_kind, concrete=True):
             it = driver_interp(P, ctx, mod, dict(intr))
             it.unknown_loop_iters = (1,)
             try:
-                lib = sample_library(it, P, name_kind, concrete=(rep.tier == "quick" and variant == 0))
+                lib = sample_library(it, P, name_kind, concrete=concrete)
                 mw = it.construct(mcls, [], dict(kwargs))
             except Raised as r:
                 return ("setup-raise", r, None, None, None, None)
@@ -231,12 +231,33 @@ def run(P: Program, rep: Report):
                 return ("raise", r, lib, before, in_ids, flag)
             except (Unsupported, LoopBound) as u:
                 return ("unsupported", str(u), None, None, None, None)
-            return ("return", out, lib, before, in_ids, flag)
+            # the same instance applied to its own result (a stack may hold a middleware twice; results are fed back in
+            # edit-and-save loops): the first result is now the input and must be left alone and unshared as well
+            second = None
+            if isinstance(out, AObj) and concrete:
+                before2 = snapshot(out)
+                ids2 = mutable_ids(out)
+                try:
+                    out2 = call(it, mw, "transform", out)
+                    d2 = diff_snapshots(before2, snapshot(out))
+                    sh2 = [(p_, ids2[i_]) for i_, p_ in mutable_ids(out2).items() if i_ in ids2]
+                    second = (d2, sh2)
+                except Raised:
+                    second = (diff_snapshots(before2, snapshot(out)), [])
+                except (Unsupported, LoopBound) as u:
+                    return ("unsupported", "second application: " + str(u), None, None, None, None)
+            return ("return", out, lib, before, in_ids, (flag, second))
 
         res = explore(run1, 4000)
+        if rep.tier != "quick":
+            # unknown values (more paths through the value-dependent code); the second application stays with the concrete pass
+            res = res + explore(lambda c: run1(c, concrete=False), 40000)
         seen_fail = set()
         npaths = 0
         for ctx, (kind, out, lib, before, in_ids, flag) in res:
+            second = None
+            if kind == "return":
+                flag, second = flag
             if kind == "unsupported":
                 raise AnalysisError(f"C07: analyser cannot follow {clsname}.transform: {out}")
             if kind == "setup-raise":
@@ -267,6 +288,15 @@ def run(P: Program, rep: Report):
                 rep.fail("C07.R2", f"aliasing:{label}", mcls.loc,
                          f"{clsname} in copy mode returns a library sharing mutable objects with its input: output{shared[0][0]} is input{shared[0][1]}"
                          f" ({len(shared)} shared objects; assumptions {ctx.assumed[-3:]})")
+            if second and second[0] and ("mut", label) not in seen_fail:
+                seen_fail.add(("mut", label))
+                rep.fail("C07.R1", f"input-mutated:{label}", mcls.loc,
+                         f"{clsname} in copy mode, applied to its own earlier result, mutates that input: {second[0]}")
+            if second and second[1] and ("alias", label) not in seen_fail:
+                seen_fail.add(("alias", label))
+                rep.fail("C07.R2", f"aliasing:{label}", mcls.loc,
+                         f"{clsname} in copy mode, applied to its own earlier result, returns a library sharing mutable objects with that input: "
+                         f"output{second[1][0][0]} is input{second[1][0][1]} ({len(second[1])} shared objects)")
         total_paths += npaths
         if ("mut", label) not in seen_fail:
             rep.ok("C07.R1", f"input-unchanged:{label}", mcls.loc, f"{npaths} paths")
@@ -282,14 +312,22 @@ def run(P: Program, rep: Report):
                        "and the default unparse stack is built with allow_inplace_modification=False")
     ws = P.func("entrypoint", "write_string")
 
-    def run2(ctx):
+    def run2(ctx, variant=0):
         it = driver_interp(P, ctx, "entrypoint", dict(intr))
         lib = sample_library(it, P, "str", concrete=(rep.tier == "quick"))
         fmt = new_obj(it, P, "writer", "BibtexFormat")
         it.set_attr(fmt, "value_column", "auto")
         b1, b2 = snapshot(lib), snapshot(fmt)
+        kw = {}
+        if variant == 1:
+            kw["prepend_middleware"] = AList([])
+        elif variant == 2:
+            kw["prepend_middleware"] = AList([it.construct(P.cls("middlewares.fieldkeys", "NormalizeFieldKeys"), [], {"allow_inplace_modification": False})])
+        elif variant == 3:
+            kw["prepend_middleware"] = (x for x in ())   # placeholder, replaced below
+            kw["prepend_middleware"] = AList([], tag="genexp")
         try:
-            call_func(it, ws, lib, bibtex_format=fmt)
+            call_func(it, ws, lib, bibtex_format=fmt, **kw)
         except Raised as r:
             return ("raise", r, None)
         except (Unsupported, LoopBound) as u:
@@ -297,7 +335,10 @@ def run(P: Program, rep: Report):
         return ("return", diff_snapshots(b1, snapshot(lib)), diff_snapshots(b2, snapshot(fmt)))
     bad = set()
     n = 0
-    for ctx, (kind, a, b) in explore(run2, 4000):
+    runs = []
+    for variant in (0, 1, 2, 3):
+        runs.extend(explore(lambda c, v=variant: run2(c, v), 4000))
+    for ctx, (kind, a, b) in runs:
         n += 1
         if kind == "unsupported":
             raise AnalysisError(f"C07.R5: analyser cannot follow write_string: {a}")
@@ -316,3 +357,8 @@ def run(P: Program, rep: Report):
 
     rep.rule("C07.R6", "copying a failed block must not raise: every package exception class is copy-safe (same rule as C01.R6)")
     common.exception_copy_safety(P, rep, "C07.R6")
+
+    rep.rule("C07.R9", "no unsafe memoisation in the modules this property rests on: a function decorated with lru_cache / cache / "
+                      "cached_property neither takes nor returns a mutable object (else later calls see stale or shared results)")
+    from . import common as _common
+    _common.no_unsafe_memoisation(P, rep, "C07.R9", ['middlewares.middleware', 'middlewares.parsestack', 'entrypoint', 'writer', 'model'])
